@@ -15,7 +15,8 @@ CASE_TIMEOUT = 120
 BATCH_SIZE = {'quick': 4, 'thorough': 12}
 REQUIRED_COUNTERS = ['draws_checked', 'votes_recomputed', 'cell_nodes_exact',
                      'cell_nodes_with_more_than_255_votes_for_a_child',
-                     'round_half_cases_checked']
+                     'round_half_cases_checked',
+                     'cell_nodes_constant_on_every_subset']
 RULE = ('case = generated mapping world (taxonomy, reference profiles, '
         'marker table, query in a different gene order, configuration: '
         'factor 0.1-1 incl. values making factor x n land on .5 or below 1, '
@@ -64,6 +65,9 @@ def gen_cases(tier, seed):
             c['x_dtype'] = str(rng.choice(['int32', 'int64', 'uint16']))
         if i % 5 == 0:
             c['factor_lookup'] = True
+        if i % 3 == 1:
+            c['root_only_cells'] = 3
+            c['n_cells'] = max(c['n_cells'], 5)
         if i % 8 == 3:
             # vote counters must hold more than 255 (and 65535) votes
             c['bootstrap_iteration'] = [256, 300, 255, 700][(i // 8) % 4]
